@@ -1462,7 +1462,13 @@ func translateFeatureOptions(p *tr.Pkg, decls map[string]*ast.FuncDecl) string {
 
 // ---------- getFromAPI ----------
 
+type apiStep struct {
+	kind string // SWait | SNewRequest | SDo | SClose | SStatus | SDecode
+	a, b string // constructor arguments (Coq text); b of Wait/NewRequest/Do = the error of the call returns
+}
+
 type apiInfo struct {
+	steps []apiStep
 	rules        [][2]string // code, type
 	okCode       string
 	otherType    string
@@ -1479,6 +1485,40 @@ func translateGetFromAPI(p *tr.Pkg, decls map[string]*ast.FuncDecl) apiInfo {
 	}
 	var a apiInfo
 	var waitPos, doPos token.Pos
+	// every call expression of the body must be accounted for by a step (or be part of one)
+	claimed := map[token.Pos]bool{}
+	claim := func(n ast.Node) {
+		ast.Inspect(n, func(m ast.Node) bool {
+			if ce, ok := m.(*ast.CallExpr); ok {
+				claimed[ce.Pos()] = true
+			}
+			return true
+		})
+	}
+	hasCall := func(n ast.Node) bool {
+		found := false
+		ast.Inspect(n, func(m ast.Node) bool {
+			if _, ok := m.(*ast.CallExpr); ok {
+				found = true
+			}
+			return true
+		})
+		return found
+	}
+	addStep := func(kind, x, y string) { a.steps = append(a.steps, apiStep{kind, x, y}) }
+	statusEmitted := false
+	emitStatus := func() {
+		if !statusEmitted {
+			addStep("SStatus", "", "")
+			statusEmitted = true
+		}
+	}
+	b2s := func(b bool) string {
+		if b {
+			return "true"
+		}
+		return "false"
+	}
 	retType := func(rs *ast.ReturnStmt) string {
 		if len(rs.Results) != 1 {
 			return ""
@@ -1562,11 +1602,35 @@ func translateGetFromAPI(p *tr.Pkg, decls map[string]*ast.FuncDecl) apiInfo {
 				if !ok || be.Op != token.NEQ || render(p, be.X) != "ds.Limiter" || render(p, be.Y) != "nil" {
 					fail(p, x, "getFromAPI: limiter block is not guarded by ds.Limiter != nil")
 				}
-				for _, t := range x.Body.List {
+				// err := ds.Limiter.Wait(ctx); if err != nil { return err }   or the if-init form
+				nWait := 0
+				ast.Inspect(x.Body, func(n ast.Node) bool {
+					if ce, ok := n.(*ast.CallExpr); ok {
+						if render(p, ce) != "ds.Limiter.Wait(ctx)" {
+							fail(p, ce, "getFromAPI: call other than ds.Limiter.Wait(ctx) in the limiter block")
+						}
+						nWait++
+						claimed[ce.Pos()] = true
+					}
+					return true
+				})
+				stops := false
+				for _, t := range flatten(x.Body.List) {
 					if isErrReturn(t) {
-						a.waitErrStops = true
+						stops = true
+					} else if is2, ok := t.(*ast.IfStmt); ok && is2.Init != nil {
+						y := *is2
+						y.Init = nil
+						if isErrReturn(&y) {
+							stops = true
+						}
 					}
 				}
+				if nWait != 1 || len(x.Body.List) > 2 || x.Else != nil {
+					fail(p, x, "getFromAPI: limiter block is not one Wait and its error return")
+				}
+				a.waitErrStops = stops
+				addStep("SWait", "true", b2s(stops))
 				continue
 			}
 			if op, code, ok := statusCmp(x.Cond); ok && (x.Init == nil || isAliasInit(x.Init)) && x.Else == nil && len(x.Body.List) == 1 {
@@ -1574,6 +1638,7 @@ func translateGetFromAPI(p *tr.Pkg, decls map[string]*ast.FuncDecl) apiInfo {
 				if !ok {
 					fail(p, x, "getFromAPI: status block does not return")
 				}
+				emitStatus()
 				t := retType(rs)
 				if t == "" {
 					fail(p, x, "getFromAPI: status block does not return &T{...}")
@@ -1595,11 +1660,22 @@ func translateGetFromAPI(p *tr.Pkg, decls map[string]*ast.FuncDecl) apiInfo {
 				}
 				continue
 			}
-			// client == nil fallbacks and err != nil returns are transport plumbing
+			// if err != nil { return err }: the error of the preceding NewRequest / Do returns
 			if isErrReturn(x) {
-				continue
+				if n := len(a.steps); n > 0 && (a.steps[n-1].kind == "SNewRequest" || a.steps[n-1].kind == "SDo") && a.steps[n-1].b == "false" {
+					a.steps[n-1].b = "true"
+					continue
+				}
+				fail(p, x, "getFromAPI: error return that does not follow NewRequest / Do")
 			}
-			if be, ok := x.Cond.(*ast.BinaryExpr); ok && be.Op == token.EQL && render(p, be.X) == "client" && render(p, be.Y) == "nil" {
+			// if client == nil { client = <no call> }: choice of the client, no effect
+			if be, ok := x.Cond.(*ast.BinaryExpr); ok && be.Op == token.EQL && render(p, be.X) == "client" && render(p, be.Y) == "nil" && x.Else == nil && x.Init == nil {
+				for _, t := range x.Body.List {
+					as, ok := t.(*ast.AssignStmt)
+					if !ok || len(as.Lhs) != 1 || render(p, as.Lhs[0]) != "client" || hasCall(as) {
+						fail(p, t, "getFromAPI: the client fallback does something other than choosing a client")
+					}
+				}
 				continue
 			}
 			fail(p, x, "getFromAPI: unsupported if statement %s", render(p, x))
@@ -1616,6 +1692,7 @@ func translateGetFromAPI(p *tr.Pkg, decls map[string]*ast.FuncDecl) apiInfo {
 			if sawOther {
 				fail(p, x, "getFromAPI: status switch after the catch-all")
 			}
+			emitStatus()
 			for _, cl := range x.Body.List {
 				cc := cl.(*ast.CaseClause)
 				body := cc.Body
@@ -1637,6 +1714,8 @@ func translateGetFromAPI(p *tr.Pkg, decls map[string]*ast.FuncDecl) apiInfo {
 						a.okCode = tv.Value.ExactString()
 						a.decodes = true
 						decodeInCase = true
+						claim(rs)
+						addStep("SDecode", "", "")
 						continue
 					}
 				}
@@ -1681,25 +1760,58 @@ func translateGetFromAPI(p *tr.Pkg, decls map[string]*ast.FuncDecl) apiInfo {
 			}
 			sawSwitch = true
 		case *ast.AssignStmt:
-			ast.Inspect(x, func(n ast.Node) bool {
-				if ce, ok := n.(*ast.CallExpr); ok {
-					if _, ok := isCall(ce, "http", "NewRequest"); ok {
-						tv := p.Info.Types[ce.Args[0]]
-						if tv.Value == nil {
-							fail(p, x, "getFromAPI: HTTP method not constant")
-						}
-						a.httpMethod = constant.StringVal(tv.Value)
-						if render(p, ce.Args[1]) != "url" {
-							fail(p, x, "getFromAPI: request URL is not the url parameter")
-						}
-					}
-					if _, ok := isCall(ce, "client", "Do"); ok {
-						doPos = ce.Pos()
-					}
+			if len(x.Rhs) != 1 {
+				fail(p, x, "getFromAPI: unsupported assignment")
+			}
+			rhs := x.Rhs[0]
+			switch {
+			case isAliasInit(x):
+			case !hasCall(x):
+				// choice of the client: client := ds.Client, client = DefaultDatasource.Client, ...
+				if len(x.Lhs) != 1 || render(p, x.Lhs[0]) != "client" {
+					fail(p, x, "getFromAPI: assignment that is neither the client choice nor a request step: %s", render(p, x))
 				}
-				return true
-			})
+			default:
+				if ce, ok := isCall(rhs, "http", "NewRequest"); ok && len(ce.Args) == 3 {
+					tv := p.Info.Types[ce.Args[0]]
+					if tv.Value == nil {
+						fail(p, x, "getFromAPI: HTTP method not constant")
+					}
+					a.httpMethod = constant.StringVal(tv.Value)
+					if render(p, ce.Args[1]) != "url" || render(p, ce.Args[2]) != "nil" || hasCall(ce.Args[1]) {
+						fail(p, x, "getFromAPI: request is not NewRequest(<method>, url, nil)")
+					}
+					if len(x.Lhs) != 2 || render(p, x.Lhs[0]) != "req" {
+						fail(p, x, "getFromAPI: NewRequest result is not kept as req, err")
+					}
+					claimed[ce.Pos()] = true
+					addStep("SNewRequest", q(a.httpMethod), "false")
+				} else if ce, ok := isCall(rhs, "client", "Do"); ok && len(ce.Args) == 1 {
+					withCtx := false
+					switch render(p, ce.Args[0]) {
+					case "req.WithContext(ctx)":
+						withCtx = true
+						claim(ce.Args[0])
+					case "req":
+					default:
+						fail(p, x, "getFromAPI: client.Do of something other than req / req.WithContext(ctx)")
+					}
+					if len(x.Lhs) != 2 || render(p, x.Lhs[0]) != "resp" {
+						fail(p, x, "getFromAPI: Do result is not kept as resp, err")
+					}
+					doPos = ce.Pos()
+					claimed[ce.Pos()] = true
+					addStep("SDo", b2s(withCtx), "false")
+				} else {
+					fail(p, x, "getFromAPI: call outside the modelled effects: %s", render(p, x))
+				}
+			}
 		case *ast.DeferStmt:
+			if render(p, x.Call) != "resp.Body.Close()" {
+				fail(p, x, "getFromAPI: defer of something other than resp.Body.Close()")
+			}
+			claimed[x.Call.Pos()] = true
+			addStep("SClose", "", "")
 		case *ast.ReturnStmt:
 			if decodeInCase {
 				// every status without a case falls out of the switch: the catch-all
@@ -1713,10 +1825,12 @@ func translateGetFromAPI(p *tr.Pkg, decls map[string]*ast.FuncDecl) apiInfo {
 			if !sawOther {
 				fail(p, x, "getFromAPI: decode without a non-OK catch-all before it")
 			}
-			if !strings.Contains(render(p, x), "xml.NewDecoder(resp.Body).Decode(item)") {
+			if render(p, x) != "return xml.NewDecoder(resp.Body).Decode(item)" {
 				fail(p, x, "getFromAPI: final return is not the XML decode of the body into item")
 			}
 			a.decodes = true
+			claim(x)
+			addStep("SDecode", "", "")
 		default:
 			fail(p, s, "getFromAPI: unsupported statement")
 		}
@@ -1727,6 +1841,13 @@ func translateGetFromAPI(p *tr.Pkg, decls map[string]*ast.FuncDecl) apiInfo {
 	if doPos == token.NoPos || a.httpMethod == "" || !a.decodes {
 		fail(p, fd, "getFromAPI: request / decode not recognised")
 	}
+	// nothing else may call anything
+	ast.Inspect(fd.Body, func(n ast.Node) bool {
+		if ce, ok := n.(*ast.CallExpr); ok && !claimed[ce.Pos()] {
+			fail(p, ce, "getFromAPI: call outside the modelled effects: %s", render(p, ce))
+		}
+		return true
+	})
 	a.waitFirst = waitPos != token.NoPos && waitPos < doPos
 	if waitPos == token.NoPos {
 		fail(p, fd, "getFromAPI: no Limiter.Wait call")
@@ -1878,6 +1999,15 @@ func main() {
 	fmt.Fprintf(&b, "Definition status_rules : list (Z * string) := [%s].\n", strings.Join(rs, "; "))
 	fmt.Fprintf(&b, "Definition status_ok : Z := %s.\n", a.okCode)
 	fmt.Fprintf(&b, "Definition status_other : string := %s.\n", q(a.otherType))
+	var st []string
+	for _, x := range a.steps {
+		t := x.kind
+		if x.a != "" {
+			t += " " + x.a + " " + x.b
+		}
+		st = append(st, t)
+	}
+	fmt.Fprintf(&b, "(* getFromAPI: its effectful calls, in source order; every other call expression in the\n   body is a translator error *)\nDefinition api_steps : list step := [%s].\n", strings.Join(st, "; "))
 	fmt.Fprintf(&b, "Definition http_method : string := %s.\n", q(a.httpMethod))
 	fmt.Fprintf(&b, "Definition wait_before_do : bool := %v.\n", a.waitFirst)
 	fmt.Fprintf(&b, "Definition wait_error_returns : bool := %v.\n", a.waitErrStops)
